@@ -428,5 +428,22 @@ def replay_pstart(case):
         raise Violation(f"C12/pstart_{case['how']}/{kinds}", dict(leaks=leaks))
 
 
+def part_calibrate(ctx):
+    """Thorough tier only: the repository's own suite must still pass on simnet (fidelity of the network model)."""
+    from vlib import calibrate
+    import io
+    import contextlib
+    buf = io.StringIO()
+    with contextlib.redirect_stdout(buf):
+        rc = calibrate.main()
+    ctx.evaluations += 1
+    ctx.extra["calibration"] = buf.getvalue().strip().splitlines()[0][:200] if buf.getvalue().strip() else "?"
+    if rc != 0:
+        ctx.harness_errors.append("simnet calibration failed: " + buf.getvalue()[-500:])
+
+
 def plan(tier):
-    return [("enumerate", 16), ("align", 8), ("pstart", 4), ("tapes", 8 if tier == "quick" else 16)]
+    p = [("enumerate", 16), ("align", 8), ("pstart", 4), ("tapes", 8 if tier == "quick" else 16)]
+    if tier == "thorough":
+        p.append(("calibrate", 1))
+    return p
